@@ -719,4 +719,241 @@ theorem checkParamType_spec (t : TypeDef) (f pf : Field) (i : Name)
       simp [hs, this]
 
 
+theorem filter_keys_nil_iff (fp pp : Map Name PTy) :
+    (Map.keys pp).filter (fun n => !Map.contains n fp) = [] ↔ ∀ p ∈ Map.keys pp, p ∈ Map.keys fp := by
+  simp only [List.filter_eq_nil_iff, Bool.not_eq_true, Bool.not_eq_false', Map.contains,
+    Map.get?_isSome_iff_mem_keys]
+
+theorem checkNarrowingImpl_spec {vts : List TypeDef} (hnd : (vts.map (·.name)).Nodup)
+    (hc : ∀ t ∈ vts, ∀ f ∈ t.fields, ArgsShallow f)
+    (t : TypeDef) (f : Field) (hf : ArgsShallow f) (i : Name) :
+    ∃ es, checkNarrowingImpl vts t f i = .ok es ∧
+      (es = [] ↔ ∀ pf, lookupField vts i f.name = some pf → NarrowRule vts pf f) := by
+  unfold checkNarrowingImpl
+  cases hl : lookupField vts i f.name with
+  | none => exact ⟨[], rfl, by simp⟩
+  | some pf =>
+    have hpf : ArgsShallow pf := by
+      unfold lookupField at hl
+      cases hft : findType vts i with
+      | none => simp [hft] at hl
+      | some d =>
+        simp only [hft] at hl
+        exact hc d (findType_some hft).1 pf (findField_some hl).1
+    obtain ⟨e4, h4, h4'⟩ := collect_spec (f := checkParamType t f i (paramMap pf.args))
+      (P := fun p => ∀ pty, argTy pf.args p.1 = some pty → ScalarNarrows p.2 pty) (paramMap f.args)
+      (fun p hp => checkParamType_spec t f pf i hf hpf p hp)
+    simp only [h4]
+    refine ⟨_, rfl, ?_⟩
+    simp only [Option.some.injEq, forall_eq', NarrowRule, List.append_eq_nil_iff, h4']
+    have h1 : (if isSubtype vts pf.ty f.ty = true then []
+        else [SchemaErr.invalidTypeWidening f.name t.name i f.ty pf.ty]) = [] ↔ Narrows vts pf.ty f.ty := by
+      rw [← isSubtype_iff hnd]; cases isSubtype vts pf.ty f.ty <;> simp
+    have h2 : ∀ (l : List Name) (e : SchemaErr), (if l.isEmpty = true then [] else [e]) = [] ↔ l = [] := by
+      intro l e; cases l <;> simp
+    rw [h1, h2, h2, filter_keys_nil_iff, filter_keys_nil_iff]
+    simp only [mem_keys_paramMap]
+    constructor
+    · rintro ⟨⟨⟨hn, hm⟩, hu⟩, hp⟩
+      refine ⟨hn, fun p => ⟨hm p, hu p⟩, ?_⟩
+      intro p cty pty hc hp'
+      exact hp (p, cty) ((mem_paramMap_iff _ _).mpr hc) pty hp'
+    · rintro ⟨hn, hnames, hp⟩
+      refine ⟨⟨⟨hn, fun p => (hnames p).mp⟩, fun p => (hnames p).mpr⟩, ?_⟩
+      intro p hp' pty hpty
+      exact hp p.1 p.2 pty ((mem_paramMap_iff _ _).mp hp') hpty
+
+theorem checkNarrowing_spec {vts : List TypeDef} (hnd : (vts.map (·.name)).Nodup)
+    (hc : ∀ t ∈ vts, ∀ f ∈ t.fields, ArgsShallow f) :
+    ∃ es, checkNarrowing vts = .ok es ∧ (es = [] ↔ NarrowingRule vts) := by
+  unfold checkNarrowing NarrowingRule
+  obtain ⟨es, h, h'⟩ := collect_spec (f := checkNarrowingType vts)
+    (P := fun t => ∀ f ∈ t.fields, ∀ i ∈ t.implements, ∀ pf, lookupField vts i f.name = some pf →
+      NarrowRule vts pf f) (sortByName vts)
+    (fun t ht => by
+      have ht' := (mem_sortByName _ _).mp ht
+      unfold checkNarrowingType
+      apply collect_spec
+      intro f hf
+      unfold checkNarrowingField
+      apply collect_spec
+      intro i _
+      exact checkNarrowingImpl_spec hnd hc t f (hc t ht' f hf) i)
+  exact ⟨es, h, by simpa [mem_sortByName] using h'⟩
+
+
+/-! ### The first loop of `Schema::new` -/
+
+theorem nodupNames_iff (l : List Name) : nodupNames l = true ↔ l.Nodup := by
+  induction l with
+  | nil => simp [nodupNames]
+  | cons a as ih => simp [nodupNames, ih, List.nodup_cons]
+
+theorem firstDupField_none_iff (seen : List Name) (fs : List Field) :
+    firstDupField seen fs = none ↔ (fs.map (·.name)).Nodup ∧ ∀ f ∈ fs, f.name ∉ seen := by
+  induction fs generalizing seen with
+  | nil => simp [firstDupField]
+  | cons f fs ih =>
+    simp only [firstDupField, List.contains_eq_mem, decide_eq_true_eq, List.map_cons, List.nodup_cons,
+      List.mem_map, not_exists, not_and, List.mem_cons, forall_eq_or_imp]
+    by_cases h : f.name ∈ seen
+    · simp [h]
+    · simp only [h, if_false, ih, List.mem_cons, not_or, not_false_eq_true, true_and]
+      constructor
+      · rintro ⟨h1, h2⟩
+        exact ⟨⟨fun x hx hxe => (h2 x hx).1 hxe, h1⟩, fun x hx => (h2 x hx).2⟩
+      · rintro ⟨⟨h1, h2⟩, h3⟩
+        exact ⟨h2, fun x hx => ⟨fun hxe => h1 x hx hxe, h3 x hx⟩⟩
+
+/-- Type names and, per type, field names are distinct. -/
+def Distinct (ts : List TypeDef) : Prop :=
+  (ts.map (·.name)).Nodup ∧ ∀ t ∈ ts, (t.fields.map (·.name)).Nodup
+
+/-- The loop state after the definitions `pre`. -/
+structure StateOf (pre : Doc) (st : LoopState) : Prop where
+  schema : st.schema = pre.schemaBlocks.head?
+  directives : st.directives = pre.directiveNames
+  scalars : st.scalars = pre.scalarNames
+  vertexTypes : st.vertexTypes = pre.types
+
+/-- The part of `NoKnownSchemaTrigger` that concerns the first loop. -/
+structure LoopGuard (d : Doc) : Prop where
+  oneBlock : d.schemaBlocks.length ≤ 1
+  typesNotBuiltin : ∀ t ∈ d.types, isBuiltin t.name = false
+  scalarsNotBuiltin : ∀ n ∈ d.scalarNames, isBuiltin n = false
+  directivesNodup : d.directiveNames.Nodup
+  scalarsNodup : d.scalarNames.Nodup
+  noUnsupported : d.unsupportedNames = []
+
+theorem Doc.types_append (a b : Doc) : Doc.types (a ++ b) = Doc.types a ++ Doc.types b := by
+  simp [Doc.types, List.filterMap_append]
+theorem Doc.schemaBlocks_append (a b : Doc) : Doc.schemaBlocks (a ++ b) = Doc.schemaBlocks a ++ Doc.schemaBlocks b := by
+  simp [Doc.schemaBlocks, List.filterMap_append]
+theorem Doc.directiveNames_append (a b : Doc) : Doc.directiveNames (a ++ b) = Doc.directiveNames a ++ Doc.directiveNames b := by
+  simp [Doc.directiveNames, List.filterMap_append]
+theorem Doc.scalarNames_append (a b : Doc) : Doc.scalarNames (a ++ b) = Doc.scalarNames a ++ Doc.scalarNames b := by
+  simp [Doc.scalarNames, List.filterMap_append]
+theorem Doc.unsupportedNames_append (a b : Doc) : Doc.unsupportedNames (a ++ b) = Doc.unsupportedNames a ++ Doc.unsupportedNames b := by
+  simp [Doc.unsupportedNames, List.filterMap_append]
+
+theorem Distinct.of_append_left {a b : List TypeDef} (h : Distinct (a ++ b)) : Distinct a := by
+  refine ⟨?_, fun t ht => h.2 t (by simp [ht])⟩
+  have := h.1
+  rw [List.map_append] at this
+  exact (List.nodup_append.mp this).1
+
+theorem runLoop_spec (rest : Doc) : ∀ (pre : Doc) (st : LoopState), StateOf pre st →
+    LoopGuard (pre ++ rest) → Distinct pre.types →
+    (∃ e, runLoop st rest = .ok (.error e) ∧ ¬ Distinct (pre ++ rest).types) ∨
+    (∃ st', runLoop st rest = .ok (.ok st') ∧ StateOf (pre ++ rest) st' ∧ Distinct (pre ++ rest).types) := by
+  induction rest with
+  | nil =>
+    intro pre st hst _ hd
+    exact .inr ⟨st, rfl, by simpa using hst, by simpa using hd⟩
+  | cons d rest ih =>
+    intro pre st hst hg hd
+    have hassoc : pre ++ d :: rest = (pre ++ [d]) ++ rest := by simp
+    rw [hassoc] at hg ⊢
+    cases d with
+    | schema q =>
+      have hb := hg.oneBlock
+      simp only [Doc.schemaBlocks_append] at hb
+      have hpre : pre.schemaBlocks = [] := by
+        cases hps : pre.schemaBlocks with
+        | nil => rfl
+        | cons x xs =>
+          have h1 : Doc.schemaBlocks [Def.schema q] = [q] := rfl
+          simp only [hps, h1, List.length_append, List.length_cons] at hb; omega
+      have hnone : st.schema = none := by rw [hst.schema, hpre]; rfl
+      have hst' : StateOf (pre ++ [Def.schema q]) { st with schema := some q } :=
+        ⟨by rw [Doc.schemaBlocks_append, hpre]; rfl,
+         by simp [Doc.directiveNames_append, hst.directives, Doc.directiveNames],
+         by simp [Doc.scalarNames_append, hst.scalars, Doc.scalarNames],
+         by simp [Doc.types_append, hst.vertexTypes, Doc.types]⟩
+      have hd' : Distinct (pre ++ [Def.schema q]).types := by simpa [Doc.types_append, Doc.types] using hd
+      simpa [runLoop, loopStep, hnone] using ih _ _ hst' hg hd'
+    | directive n =>
+      have hb := hg.directivesNodup
+      simp only [Doc.directiveNames_append] at hb
+      have hn : n ∉ st.directives := by
+        rw [hst.directives]
+        have := (List.nodup_append.mp (List.nodup_append.mp hb).1)
+        simpa [Doc.directiveNames] using fun h => this.2.2 n h n (by simp [Doc.directiveNames]) rfl
+      have hst' : StateOf (pre ++ [Def.directive n]) { st with directives := st.directives ++ [n] } :=
+        ⟨by simp [Doc.schemaBlocks_append, hst.schema, Doc.schemaBlocks],
+         by simp [Doc.directiveNames_append, hst.directives, Doc.directiveNames],
+         by simp [Doc.scalarNames_append, hst.scalars, Doc.scalarNames],
+         by simp [Doc.types_append, hst.vertexTypes, Doc.types]⟩
+      have hd' : Distinct (pre ++ [Def.directive n]).types := by simpa [Doc.types_append, Doc.types] using hd
+      simpa [runLoop, loopStep, hn] using ih _ _ hst' hg hd'
+    | scalar n =>
+      have hb := hg.scalarsNodup
+      simp only [Doc.scalarNames_append] at hb
+      have hn : n ∉ st.scalars := by
+        rw [hst.scalars]
+        have := (List.nodup_append.mp (List.nodup_append.mp hb).1)
+        simpa [Doc.scalarNames] using fun h => this.2.2 n h n (by simp [Doc.scalarNames]) rfl
+      have hbi : isBuiltin n = false :=
+        hg.scalarsNotBuiltin n (by simp [Doc.scalarNames_append, Doc.scalarNames])
+      have hst' : StateOf (pre ++ [Def.scalar n]) { st with scalars := st.scalars ++ [n] } :=
+        ⟨by simp [Doc.schemaBlocks_append, hst.schema, Doc.schemaBlocks],
+         by simp [Doc.directiveNames_append, hst.directives, Doc.directiveNames],
+         by simp [Doc.scalarNames_append, hst.scalars, Doc.scalarNames],
+         by simp [Doc.types_append, hst.vertexTypes, Doc.types]⟩
+      have hd' : Distinct (pre ++ [Def.scalar n]).types := by simpa [Doc.types_append, Doc.types] using hd
+      simpa [runLoop, loopStep, hn, hbi] using ih _ _ hst' hg hd'
+    | unsupported n =>
+      have := hg.noUnsupported
+      simp [Doc.unsupportedNames_append, Doc.unsupportedNames] at this
+    | type t =>
+      have hbi : isBuiltin t.name = false :=
+        hg.typesNotBuiltin t (by simp [Doc.types_append, Doc.types])
+      have htypes : Doc.types ((pre ++ [Def.type t]) ++ rest) = Doc.types pre ++ t :: Doc.types rest := by
+        simp [Doc.types_append, Doc.types]
+      by_cases hdup : (findType st.vertexTypes t.name).isSome = true
+      · refine .inl ⟨.duplicateTypeDefinition t.name, by simp [runLoop, loopStep, hbi, hdup], ?_⟩
+        rw [htypes]
+        intro hdist
+        rw [hst.vertexTypes, findType_isSome_iff] at hdup
+        obtain ⟨d, hd1, hd2⟩ := hdup
+        have := hdist.1
+        simp only [List.map_append, List.map_cons] at this
+        have := (List.nodup_append.mp this).2.2 d.name (by simp; exact ⟨d, hd1, rfl⟩) t.name (by simp)
+        exact this hd2
+      · cases hf : firstDupField [] t.fields with
+        | some f =>
+          refine .inl ⟨.duplicateFieldDefinition t.name f, by simp [runLoop, loopStep, hbi, hdup, hf], ?_⟩
+          rw [htypes]
+          intro hdist
+          have := hdist.2 t (by simp)
+          have h2 := (firstDupField_none_iff [] t.fields).mpr ⟨this, by simp⟩
+          rw [hf] at h2; cases h2
+        | none =>
+          have hfn := (firstDupField_none_iff [] t.fields).mp hf
+          have hst' : StateOf (pre ++ [Def.type t]) { st with vertexTypes := st.vertexTypes ++ [t] } :=
+            ⟨by simp [Doc.schemaBlocks_append, hst.schema, Doc.schemaBlocks],
+             by simp [Doc.directiveNames_append, hst.directives, Doc.directiveNames],
+             by simp [Doc.scalarNames_append, hst.scalars, Doc.scalarNames],
+             by simp [Doc.types_append, hst.vertexTypes, Doc.types]⟩
+          have hd' : Distinct (pre ++ [Def.type t]).types := by
+            have hty : Doc.types (pre ++ [Def.type t]) = Doc.types pre ++ [t] := by
+              rw [Doc.types_append]; rfl
+            rw [hty]
+            rw [hst.vertexTypes, findType_isSome_iff] at hdup
+            refine ⟨?_, ?_⟩
+            · rw [List.map_append, List.nodup_append]
+              refine ⟨hd.1, by simp, ?_⟩
+              intro a ha b hb
+              simp at hb; subst hb
+              intro hab
+              simp only [List.mem_map] at ha
+              obtain ⟨x, hx, hxn⟩ := ha
+              exact hdup ⟨x, hx, by rw [hxn, hab]⟩
+            · intro x hx
+              rcases List.mem_append.mp hx with hx | hx
+              · exact hd.2 x hx
+              · simp at hx; subst hx; exact hfn.1
+          simpa [runLoop, loopStep, hbi, hdup, hf] using ih _ _ hst' hg hd'
+
+
 end TF.SchemaDoc
